@@ -91,6 +91,14 @@ def main():
         "without the patch; ./check <prop> --tier quick with VERIF_REPO=<patched worktree>; worktree removed"
     )
     m["caught_by"] = sorted(p for p, c in result["checks_quick"].items() if c["detected"])
+    # harvested replay inputs must pass on the unchanged tree (e.g. not be an instance of a known finding)
+    import glob
+
+    for f in glob.glob(os.path.join(VERIF, "replays", "*", name + "-*.json")):
+        prop = os.path.basename(os.path.dirname(f))
+        rc, _ = sh(f"./check {prop} --replay {f}", cwd=VERIF)
+        if rc != 0:
+            os.remove(f)
     json.dump(m, open(os.path.join(d, "meta.json"), "w"), indent=1)
     print("filed", d, "caught_by", m["caught_by"])
     return 0
